@@ -121,4 +121,86 @@ theorem clamp_bounds (n : Nat) (off : Int) (h : Nat) :
   simp only []
   split <;> split <;> omega
 
+/-! ### drawing one row places every character -/
+
+theorem go_spec (w : Nat) : ∀ (rest : List Ch) (cells : List (Option Ch)) (col : Int),
+    0 ≤ col → (∀ c ∈ rest, 1 ≤ c.width) → cells.length = w →
+    (drawRow.go w cells col rest).length = w ∧
+    (∀ j : Nat, (j : Int) < col → (drawRow.go w cells col rest)[j]? = cells[j]?) ∧
+    (∀ (k : Nat) (c : Ch), rest[k]? = some c → col + widthSum (rest.take k) < w →
+      (drawRow.go w cells col rest)[(col + widthSum (rest.take k)).toNat]? = some (some c)) := by
+  intro rest
+  induction rest with
+  | nil =>
+    intro cells col _ _ hl
+    exact ⟨hl, fun _ _ => rfl, fun k c h => by simp at h⟩
+  | cons d rest ih =>
+    intro cells col h0 hpos hl
+    have hd : 1 ≤ d.width := hpos d List.mem_cons_self
+    obtain ⟨cells', hc'⟩ : ∃ x, x = (if 0 ≤ col ∧ col < (w : Int) then cells.set col.toNat (some d) else cells) := ⟨_, rfl⟩
+    have hl' : cells'.length = w := by rw [hc']; split <;> simp [hl]
+    obtain ⟨i1, i2, i3⟩ := ih cells' (col + d.width) (by omega) (fun c hc => hpos c (List.mem_cons_of_mem _ hc)) hl'
+    have hgo : drawRow.go w cells col (d :: rest) = drawRow.go w cells' (col + d.width) rest := by
+      rw [hc']; rfl
+    rw [hgo]
+    refine ⟨i1, ?_, ?_⟩
+    · intro j hj
+      rw [i2 j (by omega), hc']
+      split
+      · rw [List.getElem?_set_ne (by omega)]
+      · rfl
+    · intro k c hk hlt
+      cases k with
+      | zero =>
+        simp only [List.getElem?_cons_zero, Option.some.injEq] at hk
+        subst hk
+        simp only [List.take_zero, widthSum, Int.add_zero] at hlt ⊢
+        rw [i2 col.toNat (by omega), hc', if_pos ⟨h0, hlt⟩]
+        rw [List.getElem?_set_self (by omega)]
+      | succ k =>
+        have hk' : rest[k]? = some c := by simpa using hk
+        have e : col + widthSum ((d :: rest).take (k + 1)) = col + d.width + widthSum (rest.take k) := by
+          simp only [List.take_succ_cons, widthSum]; omega
+        rw [e] at hlt ⊢
+        exact i3 k c hk' hlt
+
+/-- In a line that respects the width (all characters at least one column wide), every character
+    starts in a column inside the window. -/
+theorem good_cols (w : Nat) (hw : 1 ≤ w) (l : Line) (hg : Good w l) (hpos : ∀ c ∈ l, 1 ≤ c.width)
+    (k : Nat) (c : Ch) (hk : l[k]? = some c) : widthSum (l.take k) < w := by
+  have hkl : k < l.length := by
+    rcases Nat.lt_or_ge k l.length with h | h
+    · exact h
+    · rw [List.getElem?_eq_none h] at hk; cases hk
+  have mono : ∀ (a b : Line), (∀ c ∈ b, 1 ≤ c.width) → widthSum a ≤ widthSum (a ++ b) := by
+    intro a b hb
+    rw [widthSum_append]
+    have : ∀ (b : Line), (∀ c ∈ b, 1 ≤ c.width) → 0 ≤ widthSum b := by
+      intro b
+      induction b with
+      | nil => intro _; simp [widthSum]
+      | cons x xs ih =>
+        intro hx
+        have := ih (fun c hc => hx c (List.mem_cons_of_mem _ hc))
+        have := hx x List.mem_cons_self
+        simp only [widthSum]; omega
+    have := this b hb
+    omega
+  rcases hg with h1 | h1
+  · have : k = 0 := by omega
+    subst this
+    simp [widthSum]; omega
+  · -- take k l is a prefix of dropLast l
+    have hpre : l.dropLast = l.take k ++ (l.dropLast.drop k) := by
+      have : l.take k = l.dropLast.take k := by
+        rw [List.dropLast_eq_take, List.take_take]
+        congr 1; omega
+      rw [this, List.take_append_drop]
+    have hm := mono (l.take k) (l.dropLast.drop k) (fun c hc => hpos c (by
+      have h' := List.mem_of_mem_drop hc
+      rw [List.dropLast_eq_take] at h'
+      exact List.mem_of_mem_take h'))
+    rw [← hpre] at hm
+    omega
+
 end VaxisModel.Lemmas.Pager
